@@ -7,6 +7,8 @@
 //! after `*::fs::write` + `*::fs::read`. Every region query result is compared, as an ordered list of unique
 //! record names / IDs, with the scan filter over the generator's own description of the records
 //! (same reference AND span ∩ region ≠ ∅, span from POS/CIGAR resp. REF/END/SVLEN, computed here).
+//! All calls of a file/index variant go through ONE reused reader (state left by the previous call must not leak);
+//! a wrong answer is repeated on a fresh reader to separate reused-state defects from index/query defects.
 //! A missing record is diagnosed: not indexed / not in any returned bin / pruned by the linear or binned
 //! min_offset / lost in the chunk merge / inside a returned chunk but skipped by the reader / rejected by the
 //! format-level intersects filter — the class is part of the signature.
@@ -22,7 +24,7 @@ use std::{
 
 use noodles_bam as bam;
 use noodles_bcf as bcf;
-use noodles_bgzf as bgzf;
+use noodles_bgzf::{self as bgzf, io::Seek as _};
 use noodles_core::{Position, Region, region::Interval};
 use noodles_csi::{
     self as csi, BinningIndex,
@@ -85,8 +87,23 @@ struct Scan {
     chunks: Vec<(u64, u64)>,
 }
 
+/// ONE reader over the file that serves a whole sequence of calls (the default access path: state left behind by a
+/// call — block position, buffers, a dropped half-consumed query — must not leak into the next answer).
+trait Sess {
+    /// `take`: stop after that many records and drop the query iterator
+    fn query(&mut self, name: &str, iv: Interval, take: Option<usize>) -> io::Result<Vec<String>>;
+    fn unmapped(&mut self) -> Option<io::Result<Vec<String>>> {
+        None
+    }
+    /// seek back to the start of the file, read the header again and scan every record sequentially
+    fn scan_all(&mut self) -> io::Result<Vec<String>>;
+}
+
 trait Backend {
     const FMT: &'static str;
+    /// reused reader: `indexed` = through `IndexedReader` (owning a clone of the index), else `Reader::query(.., &index, ..)`
+    fn session<'a, X: BinningIndex + Clone + 'static>(&'a self, ix: &X, indexed: bool, header_first: bool) -> io::Result<Box<dyn Sess + 'a>>;
+    /// fresh reader for one call
     fn query<X: BinningIndex>(&self, ix: &X, name: &str, iv: Interval) -> io::Result<Vec<String>>;
     /// all records inside the given chunks, without the format-level filter
     fn raw(&self, chunks: Vec<Chunk>) -> io::Result<Vec<String>>;
@@ -146,8 +163,77 @@ impl BamB {
     }
 }
 
+type Bg<'a> = bgzf::io::Reader<Cursor<&'a [u8]>>;
+
+fn take_names<T>(it: impl Iterator<Item = io::Result<T>>, name: impl Fn(&T) -> String, take: Option<usize>) -> io::Result<Vec<String>> {
+    let mut out = vec![];
+    for x in it {
+        out.push(name(&x?));
+        if Some(out.len()) == take {
+            break;
+        }
+    }
+    Ok(out)
+}
+
+struct BamSess<'a, X> {
+    r: bam::io::Reader<Bg<'a>>,
+    header: &'a sam::Header,
+    ix: X,
+}
+
+impl<X: BinningIndex> Sess for BamSess<'_, X> {
+    fn query(&mut self, name: &str, iv: Interval, take: Option<usize>) -> io::Result<Vec<String>> {
+        let q = self.r.query(self.header, &self.ix, &Region::new(name, iv))?;
+        take_names(q.records(), bam_name, take)
+    }
+    fn unmapped(&mut self) -> Option<io::Result<Vec<String>>> {
+        Some((|| take_names(self.r.query_unmapped(&self.ix)?, bam_name, None))())
+    }
+    fn scan_all(&mut self) -> io::Result<Vec<String>> {
+        self.r.get_mut().seek_to_virtual_position(bgzf::VirtualPosition::default())?;
+        self.r.read_header()?;
+        take_names(self.r.records(), bam_name, None)
+    }
+}
+
+struct BamISess<'a> {
+    r: bam::io::IndexedReader<Bg<'a>>,
+    header: &'a sam::Header,
+}
+
+impl Sess for BamISess<'_> {
+    fn query(&mut self, name: &str, iv: Interval, take: Option<usize>) -> io::Result<Vec<String>> {
+        let q = self.r.query(self.header, &Region::new(name, iv))?;
+        take_names(q.records(), bam_name, take)
+    }
+    fn unmapped(&mut self) -> Option<io::Result<Vec<String>>> {
+        Some((|| take_names(self.r.query_unmapped()?, bam_name, None))())
+    }
+    fn scan_all(&mut self) -> io::Result<Vec<String>> {
+        self.r.get_mut().seek_to_virtual_position(bgzf::VirtualPosition::default())?;
+        self.r.read_header()?;
+        take_names(self.r.records(), bam_name, None)
+    }
+}
+
 impl Backend for BamB {
     const FMT: &'static str = "bam";
+    fn session<'a, X: BinningIndex + Clone + 'static>(&'a self, ix: &X, indexed: bool, header_first: bool) -> io::Result<Box<dyn Sess + 'a>> {
+        if indexed {
+            let mut r = bam::io::IndexedReader::new(Cursor::new(&self.data[..]), ix.clone());
+            if header_first {
+                r.read_header()?;
+            }
+            Ok(Box::new(BamISess { r, header: &self.header }))
+        } else {
+            let mut r = bam::io::Reader::new(Cursor::new(&self.data[..]));
+            if header_first {
+                r.read_header()?;
+            }
+            Ok(Box::new(BamSess { r, header: &self.header, ix: ix.clone() }))
+        }
+    }
     fn query<X: BinningIndex>(&self, ix: &X, name: &str, iv: Interval) -> io::Result<Vec<String>> {
         let mut r = bam::io::Reader::new(Cursor::new(&self.data[..]));
         let region = Region::new(name, iv);
@@ -226,8 +312,58 @@ impl BcfB {
     }
 }
 
+struct BcfSess<'a, X> {
+    r: bcf::io::Reader<Bg<'a>>,
+    header: &'a vcf::Header,
+    ix: X,
+}
+
+impl<X: BinningIndex> Sess for BcfSess<'_, X> {
+    fn query(&mut self, name: &str, iv: Interval, take: Option<usize>) -> io::Result<Vec<String>> {
+        let q = self.r.query(self.header, &self.ix, &Region::new(name, iv))?;
+        take_names(q.records(), bcf_id, take)
+    }
+    fn scan_all(&mut self) -> io::Result<Vec<String>> {
+        self.r.get_mut().seek_to_virtual_position(bgzf::VirtualPosition::default())?;
+        self.r.read_header()?;
+        take_names(self.r.records(), bcf_id, None)
+    }
+}
+
+struct BcfISess<'a> {
+    r: bcf::io::IndexedReader<Bg<'a>>,
+    header: &'a vcf::Header,
+}
+
+impl Sess for BcfISess<'_> {
+    fn query(&mut self, name: &str, iv: Interval, take: Option<usize>) -> io::Result<Vec<String>> {
+        let q = self.r.query(self.header, &Region::new(name, iv))?;
+        take_names(q.records(), bcf_id, take)
+    }
+    fn scan_all(&mut self) -> io::Result<Vec<String>> {
+        self.r.get_mut().seek_to_virtual_position(bgzf::VirtualPosition::default())?;
+        self.r.read_header()?;
+        take_names(self.r.records(), bcf_id, None)
+    }
+}
+
 impl Backend for BcfB {
     const FMT: &'static str = "bcf";
+    fn session<'a, X: BinningIndex + Clone + 'static>(&'a self, ix: &X, indexed: bool, header_first: bool) -> io::Result<Box<dyn Sess + 'a>> {
+        if indexed {
+            let mut r = bcf::io::IndexedReader::new(Cursor::new(&self.data[..]), ix.clone());
+            if header_first {
+                r.read_header()?;
+            }
+            Ok(Box::new(BcfISess { r, header: &self.header }))
+        } else {
+            let mut r = bcf::io::Reader::new(Cursor::new(&self.data[..]));
+            if header_first {
+                r.read_header()?;
+            }
+            Ok(Box::new(BcfSess { r, header: &self.header, ix: ix.clone() }))
+        }
+    }
     fn query<X: BinningIndex>(&self, ix: &X, name: &str, iv: Interval) -> io::Result<Vec<String>> {
         let mut r = bcf::io::Reader::new(Cursor::new(&self.data[..]));
         let region = Region::new(name, iv);
@@ -274,8 +410,62 @@ impl VcfB {
     }
 }
 
+fn vcf_id(r: &vcf::Record) -> String {
+    r.ids().as_ref().to_string()
+}
+
+struct VcfSess<'a, X> {
+    r: vcf::io::Reader<Bg<'a>>,
+    header: &'a vcf::Header,
+    ix: X,
+}
+
+impl<X: BinningIndex> Sess for VcfSess<'_, X> {
+    fn query(&mut self, name: &str, iv: Interval, take: Option<usize>) -> io::Result<Vec<String>> {
+        let q = self.r.query(self.header, &self.ix, &Region::new(name, iv))?;
+        take_names(q.records(), vcf_id, take)
+    }
+    fn scan_all(&mut self) -> io::Result<Vec<String>> {
+        self.r.get_mut().seek_to_virtual_position(bgzf::VirtualPosition::default())?;
+        self.r.read_header()?;
+        take_names(self.r.records(), vcf_id, None)
+    }
+}
+
+struct VcfISess<'a> {
+    r: vcf::io::IndexedReader<Bg<'a>>,
+    header: &'a vcf::Header,
+}
+
+impl Sess for VcfISess<'_> {
+    fn query(&mut self, name: &str, iv: Interval, take: Option<usize>) -> io::Result<Vec<String>> {
+        let q = self.r.query(self.header, &Region::new(name, iv))?;
+        take_names(q.records(), vcf_id, take)
+    }
+    fn scan_all(&mut self) -> io::Result<Vec<String>> {
+        self.r.get_mut().seek_to_virtual_position(bgzf::VirtualPosition::default())?;
+        self.r.read_header()?;
+        take_names(self.r.records(), vcf_id, None)
+    }
+}
+
 impl Backend for VcfB {
     const FMT: &'static str = "vcf.gz";
+    fn session<'a, X: BinningIndex + Clone + 'static>(&'a self, ix: &X, indexed: bool, header_first: bool) -> io::Result<Box<dyn Sess + 'a>> {
+        if indexed {
+            let mut r = vcf::io::IndexedReader::new(Cursor::new(&self.data[..]), ix.clone());
+            if header_first {
+                r.read_header()?;
+            }
+            Ok(Box::new(VcfISess { r, header: &self.header }))
+        } else {
+            let mut r = vcf::io::Reader::new(bgzf::io::Reader::new(Cursor::new(&self.data[..])));
+            if header_first {
+                r.read_header()?;
+            }
+            Ok(Box::new(VcfSess { r, header: &self.header, ix: ix.clone() }))
+        }
+    }
     fn query<X: BinningIndex>(&self, ix: &X, name: &str, iv: Interval) -> io::Result<Vec<String>> {
         let mut r = vcf::io::Reader::new(bgzf::io::Reader::new(Cursor::new(&self.data[..])));
         let region = Region::new(name, iv);
@@ -469,6 +659,10 @@ struct Labels<'a> {
     ref_names: &'a [String],
     /// index reference id for a header reference index (tabix: position among the names of the index header)
     index_rid: &'a dyn Fn(usize) -> Option<usize>,
+    /// through `IndexedReader` instead of `Reader::query`
+    indexed: bool,
+    /// 0 ascending, 1 descending, 2 shuffled
+    base_order: u64,
 }
 
 #[derive(Default)]
@@ -480,7 +674,11 @@ struct Stats {
     ambiguous: u64,
     max_answer: u64,
     classes: HashMap<&'static str, u64>,
+    schedule: HashMap<&'static str, u64>,
     crossing: [u64; 5],
+    scans: u64,
+    unmapped_calls: u64,
+    fresh: u64,
 }
 
 fn chunk_holds(c: &Chunk, vs: u64, ve: u64) -> bool {
@@ -589,10 +787,177 @@ where
     }
 }
 
+/// What is wrong with an answer (first problem found), judged against the scan-filter oracle.
+enum Fail {
+    Unknown(String),
+    DupOrOrder(&'static str, String),
+    Extra(usize),
+    Missing(usize),
+}
+
+fn oracle(items: &[Item], reg: &Reg) -> (Vec<usize>, HashSet<usize>) {
+    let mut must: Vec<usize> = vec![];
+    let mut optional: HashSet<usize> = HashSet::new();
+    for (i, it) in items.iter().enumerate() {
+        if it.rid != Some(reg.rid) {
+            continue;
+        }
+        let Some((s, e1, e2)) = it.span else { continue };
+        if reg.hits(s, e1) {
+            must.push(i);
+        } else if reg.hits(s, e2) {
+            optional.insert(i);
+        }
+    }
+    (must, optional)
+}
+
+/// `take` = the query was stopped after that many records: the answer must then be a prefix of the full one.
+fn judge(items: &[Item], by_name: &HashMap<&str, usize>, must: &[usize], optional: &HashSet<usize>, got: &[String], take: Option<usize>) -> Result<(), Fail> {
+    let mut got_idx: Vec<usize> = Vec::with_capacity(got.len());
+    for g in got {
+        match by_name.get(g.as_str()) {
+            Some(&i) => got_idx.push(i),
+            None => return Err(Fail::Unknown(g.clone())),
+        }
+    }
+    if let Some(w) = got_idx.windows(2).find(|w| w[0] >= w[1]) {
+        let class = if w[0] == w[1] || got_idx.iter().filter(|&&x| x == w[1]).count() > 1 { "duplicate" } else { "order" };
+        return Err(Fail::DupOrOrder(
+            class,
+            format!("records {} (file #{}) and {} (file #{}) come out in this order; result {:?}", items[w[0]].name, w[0], items[w[1]].name, w[1], got.iter().take(12).collect::<Vec<_>>()),
+        ));
+    }
+    if let Some(&x) = got_idx.iter().find(|i| !must.contains(i) && !optional.contains(i)) {
+        return Err(Fail::Extra(x));
+    }
+    // strictly increasing file indices, all kept by the scan: the kept-for-sure part must be complete, or — for a query
+    // that was stopped early — a prefix that can only be short if the iterator was stopped
+    let gm: Vec<usize> = got_idx.iter().copied().filter(|i| must.contains(i)).collect();
+    let stopped = take.is_some_and(|k| got.len() >= k);
+    if stopped {
+        if gm[..] != must[..gm.len().min(must.len())] {
+            return Err(Fail::Missing(*must.iter().find(|i| !gm.contains(i)).unwrap()));
+        }
+    } else if let Some(&m) = must.iter().find(|i| !gm.contains(i)) {
+        return Err(Fail::Missing(m));
+    }
+    Ok(())
+}
+
+/// query_unmapped: every unplaced unmapped record in file order, nothing that is not flagged unmapped, no repetition.
+fn judge_unmapped(items: &[Item], by_name: &HashMap<&str, usize>, got: &[String]) -> Result<(u64, u64), (&'static str, String)> {
+    let want: Vec<usize> = items.iter().enumerate().filter(|(_, it)| it.unmapped && it.rid.is_none()).map(|(i, _)| i).collect();
+    let mut got_idx = vec![];
+    for g in got {
+        match by_name.get(g.as_str()) {
+            Some(&i) => got_idx.push(i),
+            None => return Err(("unknown-record", format!("yields {g:?}, never written"))),
+        }
+    }
+    if let Some(&x) = got_idx.iter().find(|&&i| !items[i].unmapped) {
+        return Err(("yields-record-not-flagged-unmapped", format!("yields {} (file #{x}), whose flags do not have 0x4", items[x].name)));
+    }
+    if got_idx.windows(2).any(|w| w[0] >= w[1]) {
+        return Err(("order-or-duplicate", format!("result is not in file order without repetition: {:?}", got.iter().take(12).collect::<Vec<_>>())));
+    }
+    let gset: HashSet<usize> = got_idx.iter().copied().collect();
+    if let Some(&m) = want.iter().find(|i| !gset.contains(i)) {
+        return Err((
+            "missing-unplaced-unmapped-record",
+            format!("{} unplaced unmapped records were written, {} of them are yielded; first missing {} (file #{m})", want.len(), want.iter().filter(|i| gset.contains(i)).count(), items[m].name),
+        ));
+    }
+    Ok(((got_idx.len() - want.len()) as u64, want.len() as u64))
+}
+
+#[derive(Clone, Debug)]
+enum Op {
+    /// region index, stop after n records, schedule class
+    Q(usize, Option<usize>, &'static str),
+    Unmapped,
+    Scan,
+}
+
+/// The sequence of calls one reused reader serves: every region once in a base order (ascending / descending /
+/// shuffled by (reference, start)), plus inserted blocks: a region followed by the own span of a record that lies
+/// shortly BEFORE in the same BGZF block (after a full and after a stopped query), the same region twice, a stopped
+/// (partially consumed, dropped) query followed by another query, query_unmapped and a sequential re-scan in between.
+fn schedule(rng: &mut Rng, regs: &mut Vec<Reg>, usable: &[usize], items: &[Item], scan: &Scan, base_order: u64, has_unmapped: bool) -> Vec<Op> {
+    let mut order: Vec<usize> = usable.to_vec();
+    let key = |i: &usize| (regs[*i].rid, regs[*i].s.unwrap_or(0), regs[*i].e.unwrap_or(usize::MAX));
+    match base_order % 3 {
+        0 => order.sort_by_key(key),
+        1 => {
+            order.sort_by_key(key);
+            order.reverse();
+        }
+        _ => rng.shuffle(&mut order),
+    }
+    let mut ops: Vec<Op> = order.iter().map(|&i| Op::Q(i, None, "base-order")).collect();
+    let mut blocks: Vec<Vec<Op>> = Vec::new();
+    // shortly-before pairs inside one BGZF block
+    let placed: Vec<usize> = (0..items.len().min(scan.chunks.len())).filter(|&i| items[i].span.is_some()).collect();
+    let mut tries = 0;
+    let mut pairs = 0;
+    while pairs < 14 && tries < 200 && placed.len() > 1 {
+        tries += 1;
+        let i = placed[rng.usize_below(placed.len())];
+        let back = 1 + rng.usize_below(6);
+        if i < back {
+            continue;
+        }
+        let j = i - back;
+        if items[j].span.is_none() || items[j].rid != items[i].rid || scan.chunks[j].0 >> 16 != scan.chunks[i].0 >> 16 {
+            continue;
+        }
+        let (si, ei, _) = items[i].span.unwrap();
+        let (sj, ej, _) = items[j].span.unwrap();
+        let rid = items[i].rid.unwrap();
+        let first = if rng.bool() { Reg { rid, s: Some(si), e: Some(ei), class: "own-span" } } else { Reg { rid, s: Some(si), e: Some(si), class: "point-start" } };
+        let second = if rng.bool() {
+            Reg { rid, s: Some(sj), e: Some(ej), class: "shortly-before-previous-same-block" }
+        } else {
+            Reg { rid, s: Some(sj), e: Some(sj), class: "shortly-before-previous-same-block" }
+        };
+        regs.push(first);
+        regs.push(second);
+        let n = regs.len();
+        blocks.push(vec![Op::Q(n - 2, if pairs % 2 == 0 { Some(1) } else { None }, "before-pair-first"), Op::Q(n - 1, None, "before-pair-second")]);
+        pairs += 1;
+    }
+    if !usable.is_empty() {
+        for _ in 0..8 {
+            let r = usable[rng.usize_below(usable.len())];
+            blocks.push(vec![Op::Q(r, None, "twice-first"), Op::Q(r, None, "twice-second")]);
+        }
+        for _ in 0..8 {
+            let r = usable[rng.usize_below(usable.len())];
+            let r2 = usable[rng.usize_below(usable.len())];
+            blocks.push(vec![Op::Q(r, Some(1 + rng.usize_below(3)), "stopped"), Op::Q(r2, None, "after-stopped")]);
+        }
+    }
+    for _ in 0..2 {
+        blocks.push(vec![Op::Scan]);
+    }
+    if has_unmapped {
+        for _ in 0..3 {
+            blocks.push(vec![Op::Unmapped]);
+        }
+    }
+    rng.shuffle(&mut blocks);
+    for b in blocks {
+        let at = rng.usize_below(ops.len() + 1);
+        // keep blocks intact: splice the whole block in
+        ops.splice(at..at, b);
+    }
+    ops
+}
+
 #[allow(clippy::too_many_arguments)]
-fn check_index<B: Backend, I>(b: &B, items: &[Item], scan: &Scan, ix: &Index<I>, lab: &Labels, regions: &[Reg], o: &mut CaseOut, st: &mut Stats, fps: &mut Vec<u64>)
+fn check_index<B: Backend, I>(b: &B, items: &[Item], scan: &Scan, ix: &Index<I>, lab: &Labels, regions: &[Reg], rng: &mut Rng, o: &mut CaseOut, st: &mut Stats, fps: &mut Vec<u64>)
 where
-    I: reference_sequence::Index + OffKind,
+    I: reference_sequence::Index + OffKind + Clone + 'static,
 {
     let by_name: HashMap<&str, usize> = items.iter().enumerate().map(|(i, it)| (it.name.as_str(), i)).collect();
     let (ms, d) = lab.geometry;
@@ -607,127 +972,204 @@ where
             o.count("further_violations_same_signature_same_file", 1);
         }
     };
-    for reg in regions {
-        if reg.s.unwrap_or(1) > maxpos || reg.e.unwrap_or(1) > maxpos {
-            continue; // outside what this geometry can be asked
+    let path = if lab.indexed { "IndexedReader::query" } else { "Reader::query" };
+    let mut regs: Vec<Reg> = regions.to_vec();
+    let usable: Vec<usize> = (0..regs.len()).filter(|&i| regs[i].s.unwrap_or(1) <= maxpos && regs[i].e.unwrap_or(1) <= maxpos).collect();
+    let ops = schedule(rng, &mut regs, &usable, items, scan, lab.base_order, B::FMT == "bam");
+    let header_first = rng.bool();
+    let mut sess = match guard::catch(|| b.session(ix, lab.indexed, header_first)) {
+        Ok(Ok(s)) => s,
+        Ok(Err(e)) => {
+            o.inconclusive.push(format!("cannot open a reader over the written {} file: {e}", B::FMT));
+            return;
         }
-        let name = &lab.ref_names[reg.rid];
-        // oracle
-        let mut must: Vec<usize> = vec![];
-        let mut optional: HashSet<usize> = HashSet::new();
-        for (i, it) in items.iter().enumerate() {
-            if it.rid != Some(reg.rid) {
-                continue;
-            }
-            let Some((s, e1, e2)) = it.span else { continue };
-            if reg.hits(s, e1) {
-                must.push(i);
-            } else if reg.hits(s, e2) {
-                optional.insert(i);
-            }
+        Err(p) => {
+            report(o, format!("query:{}+{}:panic:{}", B::FMT, lab.ix, p.sig), format!("opening the reader panicked: {}", p.message));
+            return;
         }
-        st.regions += 1;
-        st.ambiguous += optional.len() as u64;
-        *st.classes.entry(reg.class).or_insert(0) += 1;
-        if let (Some(a), Some(z)) = (reg.s, reg.e) {
-            for (j, span) in layouts::LEVEL_SPANS.iter().enumerate() {
-                if (a - 1) / span != (z - 1) / span {
-                    st.crossing[j] += 1;
+    };
+    let mut prev: &'static str = "first-call";
+    for (k, op) in ops.iter().enumerate() {
+        let ctxs = format!("{}+{} ({}, geometry {:?}, one reused reader via {path}, call #{k} after {prev})", B::FMT, lab.ix, lab.via, lab.geometry);
+        match op {
+            Op::Scan => {
+                let r = guard::catch(|| sess.scan_all());
+                st.scans += 1;
+                match r {
+                    Ok(Ok(names)) if names == scan.names => {}
+                    Ok(Ok(names)) => report(
+                        o,
+                        format!("sequential-scan:{}:reused-reader-differs-from-fresh-reader:after-{prev}", B::FMT),
+                        format!(
+                            "{ctxs}: seeking back to the start, re-reading the header and scanning yields {} records (first {:?}); a fresh reader yields the {} written ones",
+                            names.len(),
+                            names.first(),
+                            scan.names.len()
+                        ),
+                    ),
+                    Ok(Err(e)) => report(o, format!("sequential-scan:{}:reused-reader-differs-from-fresh-reader:after-{prev}", B::FMT), format!("{ctxs}: sequential re-scan fails: {e}")),
+                    Err(p) => report(o, format!("sequential-scan:{}:panic:{}", B::FMT, p.sig), format!("{ctxs}: {}", p.message)),
                 }
+                prev = "sequential-scan";
             }
-        }
-        let iv = reg.interval();
-        let what = format!("{}+{} ({}, geometry {:?}) region {name}:{iv} [{}]", B::FMT, lab.ix, lab.via, lab.geometry, reg.class);
-        let got = match guard::catch(|| b.query(ix, name, iv)) {
-            Err(p) => {
-                report(o, format!("query:{}+{}:panic:{}", B::FMT, lab.ix, p.sig), format!("{what}: query panicked: {}", p.message));
-                continue;
-            }
-            Ok(Err(e)) => {
-                if must.is_empty() {
-                    st.refused_empty += 1;
-                    o.count(&format!("queries_refused_where_the_scan_keeps_nothing[{}+{}:{}]", B::FMT, lab.ix, guard::normalise_message(&e.to_string().chars().take(60).collect::<String>())), 1);
-                } else {
-                    report(o, format!("query:{}+{}:failed-on-region-with-records", B::FMT, lab.ix), format!("{what}: the scan keeps {} records but the query fails: {e}", must.len()));
+            Op::Unmapped => {
+                let Some(r) = guard::catch(|| sess.unmapped()).map_err(|p| (p.sig, p.message)).transpose() else { continue };
+                st.unmapped_calls += 1;
+                let verdict = match &r {
+                    Err((sig, msg)) => Err(("panic", format!("{sig}: {msg}"))),
+                    Ok(Err(e)) => Err(("failed", e.to_string())),
+                    Ok(Ok(got)) => judge_unmapped(items, &by_name, got).map(|_| ()),
+                };
+                if let Err((class, desc)) = verdict {
+                    // same call on a fresh reader
+                    let fresh = guard::catch(|| b.unmapped(ix)).ok().flatten();
+                    let fresh_ok = matches!(&fresh, Some(Ok(g)) if judge_unmapped(items, &by_name, g).is_ok());
+                    if fresh_ok {
+                        report(
+                            o,
+                            format!("query-unmapped:{}:reused-reader-differs-from-fresh-reader:after-{prev}", lab.ix),
+                            format!("{ctxs}: query_unmapped {class}: {desc}; a fresh reader answers correctly"),
+                        );
+                    } else {
+                        report(o, format!("query-unmapped:{}:{class}", lab.ix), format!("{ctxs}: query_unmapped {desc}"));
+                    }
                 }
-                continue;
+                prev = "query-unmapped";
             }
-            Ok(Ok(v)) => v,
-        };
-        st.max_answer = st.max_answer.max(got.len() as u64);
-        if !got.is_empty() {
-            st.nonempty += 1;
-        }
-        let irid = (lab.index_rid)(reg.rid);
-        let pruning = irid.map(|r| u64::from(ix.reference_sequences()[r].min_offset(ms, d, Position::new(reg.s.unwrap_or(1)).unwrap())) > 0).unwrap_or(false);
-        if pruning {
-            st.pruning += 1;
-        }
-        fps.push(fnv1a(format!("{}|{}|{}|{}|{}|{}|{pruning}", B::FMT, lab.ix, lab.via, lab.geometry.0 == 14 && lab.geometry.1 == 5, reg.class, must.len().min(3)).as_bytes()));
-        // compare
-        let mut got_idx: Vec<usize> = Vec::with_capacity(got.len());
-        let mut bad = false;
-        for g in &got {
-            match by_name.get(g.as_str()) {
-                Some(&i) => got_idx.push(i),
-                None => {
-                    report(o, format!("query:{}+{}:extra:unknown-record", B::FMT, lab.ix), format!("{what}: yields a record named {g:?} that was never written"));
-                    bad = true;
+            Op::Q(ri, take, sched) => {
+                let reg = &regs[*ri];
+                let name = &lab.ref_names[reg.rid];
+                let (must, optional) = oracle(items, reg);
+                st.regions += 1;
+                st.ambiguous += optional.len() as u64;
+                *st.classes.entry(reg.class).or_insert(0) += 1;
+                *st.schedule.entry(sched).or_insert(0) += 1;
+                if let (Some(a), Some(z)) = (reg.s, reg.e) {
+                    for (j, span) in layouts::LEVEL_SPANS.iter().enumerate() {
+                        if (a - 1) / span != (z - 1) / span {
+                            st.crossing[j] += 1;
+                        }
+                    }
                 }
+                let iv = reg.interval();
+                let what = format!("{ctxs} region {name}:{iv} [{}, {sched}{}]", reg.class, take.map(|k| format!(", stopped after {k}")).unwrap_or_default());
+                let res = guard::catch(|| sess.query(name, iv, *take));
+                let this_call = match (&res, take) {
+                    (Ok(Ok(g)), Some(k)) if g.len() >= *k => "partially-consumed-query",
+                    (Ok(Ok(_)), _) => "query",
+                    _ => "failed-query",
+                };
+                // verdict on the reused reader's answer
+                let verdict: Result<(), Fail> = match &res {
+                    Ok(Ok(got)) => judge(items, &by_name, &must, &optional, got, *take),
+                    _ => Err(Fail::Unknown(String::new())),
+                };
+                let sample_fresh = k % 7 == 3;
+                if verdict.is_err() || sample_fresh {
+                    // the same region on a fresh reader: a correct fresh answer convicts the reused state; otherwise the
+                    // fresh answer is what gets diagnosed (index / binning / pruning / reader stages)
+                    let fresh = guard::catch(|| b.query(ix, name, iv));
+                    st.fresh += 1;
+                    let same = match (&res, &fresh) {
+                        (Ok(Ok(g)), Ok(Ok(f))) => match take {
+                            Some(k) if g.len() >= *k => f.len() >= g.len() && f[..g.len()] == g[..],
+                            _ => g == f,
+                        },
+                        (Ok(Err(_)), Ok(Err(_))) => true,
+                        (Err(_), Err(_)) => true,
+                        _ => false,
+                    };
+                    if !same {
+                        let show = |r: &Result<io::Result<Vec<String>>, guard::PanicInfo>| match r {
+                            Ok(Ok(v)) => format!("{} records {:?}", v.len(), v.iter().take(8).collect::<Vec<_>>()),
+                            Ok(Err(e)) => format!("error {e}"),
+                            Err(p) => format!("panic {}", p.sig),
+                        };
+                        report(
+                            o,
+                            format!("query:{}+{}:reused-reader-differs-from-fresh-reader:after-{prev}", B::FMT, lab.ix),
+                            format!("{what}: the reused reader yields {}, a fresh reader {}; the scan keeps {} records", show(&res), show(&fresh), must.len()),
+                        );
+                    }
+                    // judge the fresh answer the established way
+                    match fresh {
+                        Err(p) => report(o, format!("query:{}+{}:panic:{}", B::FMT, lab.ix, p.sig), format!("{what}: query panicked: {}", p.message)),
+                        Ok(Err(e)) => {
+                            if must.is_empty() {
+                                st.refused_empty += 1;
+                                o.count(
+                                    &format!("queries_refused_where_the_scan_keeps_nothing[{}+{}:{}]", B::FMT, lab.ix, guard::normalise_message(&e.to_string().chars().take(60).collect::<String>())),
+                                    1,
+                                );
+                            } else {
+                                report(o, format!("query:{}+{}:failed-on-region-with-records", B::FMT, lab.ix), format!("{what}: the scan keeps {} records but the query fails: {e}", must.len()));
+                            }
+                        }
+                        Ok(Ok(got)) => match judge(items, &by_name, &must, &optional, &got, None) {
+                            Ok(()) => {}
+                            Err(Fail::Unknown(g)) => report(o, format!("query:{}+{}:extra:unknown-record", B::FMT, lab.ix), format!("{what}: yields a record named {g:?} that was never written")),
+                            Err(Fail::DupOrOrder(class, desc)) => report(o, format!("query:{}+{}:{class}", B::FMT, lab.ix), format!("{what}: {desc}")),
+                            Err(Fail::Extra(x)) => {
+                                let it = &items[x];
+                                let class = if it.rid != Some(reg.rid) { "other-reference" } else { "outside-region" };
+                                report(
+                                    o,
+                                    format!("query:{}+{}:extra:{class}", B::FMT, lab.ix),
+                                    format!("{what}: yields {} (reference {:?}, span {:?}), which the scan filter does not keep", it.name, it.rid, it.span),
+                                );
+                            }
+                            Err(Fail::Missing(m)) => {
+                                let it = &items[m];
+                                let irid = (lab.index_rid)(reg.rid);
+                                let (stage, detail) = match irid {
+                                    Some(r) if m < scan.chunks.len() => diagnose(b, scan, ix, r, reg, lab, m),
+                                    _ => ("reference-not-in-index".to_string(), String::new()),
+                                };
+                                let gset: HashSet<&str> = got.iter().map(|s| s.as_str()).collect();
+                                let nmiss = must.iter().filter(|&&i| !gset.contains(items[i].name.as_str())).count();
+                                report(
+                                    o,
+                                    format!("query:{}+{}:missing:{stage}", B::FMT, lab.ix),
+                                    format!(
+                                        "{what}: the scan keeps {} records, the query yields {}; {nmiss} missing, first {} (file #{m}, span {:?}, unmapped={}): {detail}",
+                                        must.len(),
+                                        got.len(),
+                                        it.name,
+                                        it.span.map(|s| (s.0, s.1)),
+                                        it.unmapped
+                                    ),
+                                );
+                            }
+                        },
+                    }
+                } else if let Ok(Err(e)) = &res {
+                    let _ = e;
+                }
+                if let Ok(Ok(got)) = &res {
+                    st.max_answer = st.max_answer.max(got.len() as u64);
+                    if !got.is_empty() {
+                        st.nonempty += 1;
+                    }
+                }
+                let irid = (lab.index_rid)(reg.rid);
+                let pruning = irid.map(|r| u64::from(ix.reference_sequences()[r].min_offset(ms, d, Position::new(reg.s.unwrap_or(1)).unwrap())) > 0).unwrap_or(false);
+                if pruning {
+                    st.pruning += 1;
+                }
+                fps.push(fnv1a(
+                    format!("{}|{}|{}|{}|{}|{}|{pruning}|{sched}|{prev}|{}", B::FMT, lab.ix, lab.via, lab.geometry.0 == 14 && lab.geometry.1 == 5, reg.class, must.len().min(3), lab.indexed)
+                        .as_bytes(),
+                ));
+                prev = this_call;
             }
-        }
-        if bad {
-            continue;
-        }
-        // duplicates / order
-        if let Some(w) = got_idx.windows(2).find(|w| w[0] >= w[1]) {
-            let class = if w[0] == w[1] || got_idx.iter().filter(|&&x| x == w[1]).count() > 1 { "duplicate" } else { "order" };
-            report(
-                o,
-                format!("query:{}+{}:{class}", B::FMT, lab.ix),
-                format!("{what}: records {} (file #{}) and {} (file #{}) come out in this order; result {:?}", items[w[0]].name, w[0], items[w[1]].name, w[1], got.iter().take(12).collect::<Vec<_>>()),
-            );
-            continue;
-        }
-        let gset: HashSet<usize> = got_idx.iter().copied().collect();
-        if gset.len() != got_idx.len() {
-            report(o, format!("query:{}+{}:duplicate", B::FMT, lab.ix), format!("{what}: a record is yielded twice: {:?}", got.iter().take(12).collect::<Vec<_>>()));
-            continue;
-        }
-        // extras
-        if let Some(&x) = got_idx.iter().find(|i| !must.contains(i) && !optional.contains(i)) {
-            let it = &items[x];
-            let class = if it.rid != Some(reg.rid) { "other-reference" } else { "outside-region" };
-            report(o, format!("query:{}+{}:extra:{class}", B::FMT, lab.ix), format!("{what}: yields {} (reference {:?}, span {:?}), which the scan filter does not keep", it.name, it.rid, it.span));
-            continue;
-        }
-        // omissions
-        if let Some(&m) = must.iter().find(|i| !gset.contains(i)) {
-            let it = &items[m];
-            let (stage, detail) = match irid {
-                Some(r) if m < scan.chunks.len() => diagnose(b, scan, ix, r, reg, lab, m),
-                _ => ("reference-not-in-index".to_string(), String::new()),
-            };
-            let nmiss = must.iter().filter(|i| !gset.contains(i)).count();
-            report(
-                o,
-                format!("query:{}+{}:missing:{stage}", B::FMT, lab.ix),
-                format!(
-                    "{what}: the scan keeps {} records, the query yields {}; {nmiss} missing, first {} (file #{m}, span {:?}, unmapped={}): {detail}",
-                    must.len(),
-                    got.len(),
-                    it.name,
-                    it.span.map(|s| (s.0, s.1)),
-                    it.unmapped
-                ),
-            );
         }
     }
 }
 
+/// query_unmapped on a fresh reader (the reused-reader calls are part of `check_index`).
 fn check_unmapped<B: Backend, X: BinningIndex>(b: &B, items: &[Item], ix: &X, ixname: &str, via: &str, o: &mut CaseOut) -> bool {
     let Some(res) = guard::catch(|| b.unmapped(ix)).map_err(|p| (p.sig, p.message)).transpose() else { return false };
-    let what = format!("{}+{ixname} ({via}) query_unmapped", B::FMT);
+    let what = format!("{}+{ixname} ({via}, fresh reader) query_unmapped", B::FMT);
     let got = match res {
         Err((sig, msg)) => {
             o.violation(format!("query-unmapped:{ixname}:panic:{sig}"), format!("{what} panicked: {msg}"));
@@ -740,40 +1182,13 @@ fn check_unmapped<B: Backend, X: BinningIndex>(b: &B, items: &[Item], ix: &X, ix
         Ok(Ok(v)) => v,
     };
     let by_name: HashMap<&str, usize> = items.iter().enumerate().map(|(i, it)| (it.name.as_str(), i)).collect();
-    let want: Vec<usize> = items.iter().enumerate().filter(|(_, it)| it.unmapped && it.rid.is_none()).map(|(i, _)| i).collect();
-    let mut got_idx = vec![];
-    for g in &got {
-        match by_name.get(g.as_str()) {
-            Some(&i) => got_idx.push(i),
-            None => {
-                o.violation(format!("query-unmapped:{ixname}:unknown-record"), format!("{what} yields {g:?}, never written"));
-                return true;
-            }
+    match judge_unmapped(items, &by_name, &got) {
+        Ok((extra, want)) => {
+            o.count("query_unmapped_placed_unmapped_records_also_yielded", extra);
+            o.count("query_unmapped_unplaced_records_expected", want);
         }
+        Err((class, desc)) => o.violation(format!("query-unmapped:{ixname}:{class}"), format!("{what} {desc}")),
     }
-    if let Some(&x) = got_idx.iter().find(|&&i| !items[i].unmapped) {
-        o.violation(format!("query-unmapped:{ixname}:yields-record-not-flagged-unmapped"), format!("{what} yields {} (file #{x}), whose flags do not have 0x4", items[x].name));
-        return true;
-    }
-    if got_idx.windows(2).any(|w| w[0] >= w[1]) {
-        o.violation(format!("query-unmapped:{ixname}:order-or-duplicate"), format!("{what} result is not in file order without repetition: {:?}", got.iter().take(12).collect::<Vec<_>>()));
-        return true;
-    }
-    let gset: HashSet<usize> = got_idx.iter().copied().collect();
-    if let Some(&m) = want.iter().find(|i| !gset.contains(i)) {
-        o.violation(
-            format!("query-unmapped:{ixname}:missing-unplaced-unmapped-record"),
-            format!(
-                "{what}: {} unplaced unmapped records were written, {} of them are yielded; first missing {} (file #{m})",
-                want.len(),
-                want.iter().filter(|i| gset.contains(i)).count(),
-                items[m].name
-            ),
-        );
-        return true;
-    }
-    o.count("query_unmapped_placed_unmapped_records_also_yielded", (got_idx.len() - want.len()) as u64);
-    o.count("query_unmapped_unplaced_records_expected", want.len() as u64);
     true
 }
 
@@ -917,6 +1332,12 @@ fn finish_stats(o: &mut CaseOut, fmt: &str, st: &Stats) {
     o.count(&format!("answers_with_min_offset_above_zero[{fmt}]"), st.pruning);
     o.count("vcf45_svlen_boundary_pairs_not_judged", st.ambiguous);
     o.max("max_answer_records", st.max_answer);
+    o.count(&format!("sequential_rescans_on_reused_reader[{fmt}]"), st.scans);
+    o.count(&format!("query_unmapped_calls_on_reused_reader[{fmt}]"), st.unmapped_calls);
+    o.count(&format!("fresh_reader_cross_checks[{fmt}]"), st.fresh);
+    for (k, n) in &st.schedule {
+        o.count(&format!("reused_reader_calls[{k}]"), *n);
+    }
     for (k, n) in &st.classes {
         o.count(&format!("regions_of_class[{k}]"), *n);
     }
@@ -1004,14 +1425,15 @@ fn run_aln(ctx: &Ctx, idx: u64, seed: u64, size: usize, coord_max: usize, corpus
     // BAI from bam::fs::index
     match guard::catch(|| bam::fs::index(&path)) {
         Ok(Ok(bai)) => {
-            let lab = Labels { ix: "bai", via: "memory", geometry: (14, 5), ref_names: &ref_names, index_rid: &ident };
-            check_index(&b, &items, &scan, &bai, &lab, &regions, &mut o, &mut st, &mut fps);
+            let lab = Labels { ix: "bai", via: "memory", geometry: (14, 5), ref_names: &ref_names, index_rid: &ident, indexed: false, base_order: 1 };
+            check_index(&b, &items, &scan, &bai, &lab, &regions, &mut rng, &mut o, &mut st, &mut fps);
+            check_index(&b, &items, &scan, &bai, &Labels { indexed: true, base_order: lab.base_order + 2, ..lab }, &regions, &mut rng, &mut o, &mut st, &mut fps);
             check_unmapped(&b, &items, &bai, "bai", "memory", &mut o);
             let ip = ctx.work.join(format!("c04-{idx}.bam.bai"));
             match guard::catch(|| bam::bai::fs::write(&ip, &bai).and_then(|_| bam::bai::fs::read(&ip))) {
                 Ok(Ok(bai2)) => {
-                    let lab = Labels { via: "file", ..lab };
-                    check_index(&b, &items, &scan, &bai2, &lab, &regions, &mut o, &mut st, &mut fps);
+                    let lab = Labels { via: "file", base_order: lab.base_order + 1, ..lab };
+                    check_index(&b, &items, &scan, &bai2, &lab, &regions, &mut rng, &mut o, &mut st, &mut fps);
                     check_unmapped(&b, &items, &bai2, "bai", "file", &mut o);
                     o.count("index_file_round_trips[bai]", 1);
                 }
@@ -1027,14 +1449,17 @@ fn run_aln(ctx: &Ctx, idx: u64, seed: u64, size: usize, coord_max: usize, corpus
     for (k, (ms, d)) in [(14u8, 5u8), other].into_iter().enumerate() {
         match guard::catch(|| b.csi(ms, d)) {
             Ok(Ok(cx)) => {
-                let lab = Labels { ix: "csi", via: "memory", geometry: (ms, d), ref_names: &ref_names, index_rid: &ident };
-                check_index(&b, &items, &scan, &cx, &lab, &regions, &mut o, &mut st, &mut fps);
+                let lab = Labels { ix: "csi", via: "memory", geometry: (ms, d), ref_names: &ref_names, index_rid: &ident, indexed: false, base_order: 2 };
+                check_index(&b, &items, &scan, &cx, &lab, &regions, &mut rng, &mut o, &mut st, &mut fps);
+                if k == 0 {
+                    check_index(&b, &items, &scan, &cx, &Labels { indexed: true, base_order: lab.base_order + 2, ..lab }, &regions, &mut rng, &mut o, &mut st, &mut fps);
+                }
                 check_unmapped(&b, &items, &cx, "csi", "memory", &mut o);
                 let ip = ctx.work.join(format!("c04-{idx}.{k}.bam.csi"));
                 match guard::catch(|| csi::fs::write(&ip, &cx).and_then(|_| csi::fs::read(&ip))) {
                     Ok(Ok(cx2)) => {
-                        let lab = Labels { via: "file", ..lab };
-                        check_index(&b, &items, &scan, &cx2, &lab, &regions, &mut o, &mut st, &mut fps);
+                        let lab = Labels { via: "file", base_order: lab.base_order + 1, ..lab };
+                        check_index(&b, &items, &scan, &cx2, &lab, &regions, &mut rng, &mut o, &mut st, &mut fps);
                         check_unmapped(&b, &items, &cx2, "csi", "file", &mut o);
                         o.count("index_file_round_trips[csi]", 1);
                     }
@@ -1094,13 +1519,16 @@ fn run_var(ctx: &Ctx, idx: u64, seed: u64, size: usize, coord_max: usize, corpus
                     let built = if k == 0 { guard::catch(|| bcf::fs::index(&path)) } else { guard::catch(|| b.csi(ms, d)) };
                     match built {
                         Ok(Ok(cx)) => {
-                            let lab = Labels { ix: "csi", via: "memory", geometry: (ms, d), ref_names: &set.contigs, index_rid: &ident };
-                            check_index(&b, &items, &scan, &cx, &lab, &regions, &mut o, &mut st, &mut fps);
+                            let lab = Labels { ix: "csi", via: "memory", geometry: (ms, d), ref_names: &set.contigs, index_rid: &ident, indexed: false, base_order: 3 };
+                            check_index(&b, &items, &scan, &cx, &lab, &regions, &mut rng, &mut o, &mut st, &mut fps);
+                            if k == 0 {
+                                check_index(&b, &items, &scan, &cx, &Labels { indexed: true, base_order: lab.base_order + 2, ..lab }, &regions, &mut rng, &mut o, &mut st, &mut fps);
+                            }
                             let ip = ctx.work.join(format!("c04-{idx}.{k}.bcf.csi"));
                             match guard::catch(|| csi::fs::write(&ip, &cx).and_then(|_| csi::fs::read(&ip))) {
                                 Ok(Ok(cx2)) => {
-                                    let lab = Labels { via: "file", ..lab };
-                                    check_index(&b, &items, &scan, &cx2, &lab, &regions, &mut o, &mut st, &mut fps);
+                                    let lab = Labels { via: "file", base_order: lab.base_order + 1, ..lab };
+                                    check_index(&b, &items, &scan, &cx2, &lab, &regions, &mut rng, &mut o, &mut st, &mut fps);
                                     o.count("index_file_round_trips[csi]", 1);
                                 }
                                 Ok(Err(e)) => o.violation("index-file:csi:write-read-failed", format!("csi::fs::write + read failed: {e}")),
@@ -1142,13 +1570,14 @@ fn run_var(ctx: &Ctx, idx: u64, seed: u64, size: usize, coord_max: usize, corpus
                         let tnames: Vec<String> = tbx.header().map(|h| h.reference_sequence_names().iter().map(|n| n.to_string()).collect()).unwrap_or_default();
                         let contigs = set.contigs.clone();
                         let map = move |r: usize| tnames.iter().position(|n| n == &contigs[r]);
-                        let lab = Labels { ix: "tabix", via: "memory", geometry: (14, 5), ref_names: &set.contigs, index_rid: &map };
-                        check_index(&b, &items, &scan, &tbx, &lab, &regions, &mut o, &mut st, &mut fps);
+                        let lab = Labels { ix: "tabix", via: "memory", geometry: (14, 5), ref_names: &set.contigs, index_rid: &map, indexed: false, base_order: 4 };
+                        check_index(&b, &items, &scan, &tbx, &lab, &regions, &mut rng, &mut o, &mut st, &mut fps);
+                        check_index(&b, &items, &scan, &tbx, &Labels { indexed: true, base_order: lab.base_order + 2, ..lab }, &regions, &mut rng, &mut o, &mut st, &mut fps);
                         let ip = ctx.work.join(format!("c04-{idx}.vcf.gz.tbi"));
                         match guard::catch(|| tabix::fs::write(&ip, &tbx).and_then(|_| tabix::fs::read(&ip))) {
                             Ok(Ok(t2)) => {
-                                let lab = Labels { via: "file", ..lab };
-                                check_index(&b, &items, &scan, &t2, &lab, &regions, &mut o, &mut st, &mut fps);
+                                let lab = Labels { via: "file", base_order: lab.base_order + 1, ..lab };
+                                check_index(&b, &items, &scan, &t2, &lab, &regions, &mut rng, &mut o, &mut st, &mut fps);
                                 o.count("index_file_round_trips[tabix]", 1);
                             }
                             Ok(Err(e)) => o.violation("index-file:tabix:write-read-failed", format!("tabix::fs::write + read failed: {e}")),
@@ -1182,7 +1611,7 @@ fn main() {
         "case = one generated coordinate-sorted record set (layout motifs: bin-edge straddlers at 16kb/128kb/1Mb/8Mb/64Mb, long-before-short \
          in one 16 kb window, dense, sparse, range ends, placed/unplaced unmapped, several references incl. empty ones; flush plan and fat \
          records decide BGZF block boundaries) written as BAM resp. BCF + VCF.gz; per file every index variant (BAI | CSI default | CSI \
-         non-default geometry | tabix) x (in memory | after fs::write+fs::read) answers ~100 regions (own span, +-1, points, bin-aligned \
+         non-default geometry | tabix) x (in memory | after fs::write+fs::read) serves, on ONE reused reader per access path (Reader::query for every variant; IndexedReader::query for the primary index), a whole call sequence: ~100 regions in ascending / descending / shuffled order (rotating per variant) with inserted blocks — a region followed by the span of a record shortly BEFORE it in the same BGZF block (after a full and after a stopped query), the same region twice, a stopped and dropped query iterator followed by another query, query_unmapped, a sequential re-scan after seeking back; a wrong answer (and every 7th call) is repeated on a fresh reader: a differing fresh answer gives `reused-reader-differs-from-fresh-reader:after-<previous call>`, otherwise the fresh answer is diagnosed; regions (own span, +-1, points, bin-aligned \
          windows, whole reference, unbounded start/end, nothing, empty reference); evaluations = region queries compared with the scan \
          filter over the generator's description; distinct = distinct (format, index, memory/file, default geometry?, region class, \
          answer size class 0/1/2/3+, min_offset>0) plus distinct set shapes; a fixed corpus (4 layouts x 2 formats) precedes the seeded part",
